@@ -135,6 +135,29 @@ def check_format(prog, src, width, res, desc, family):
     if desc not in ('default', 'lines', 'tight', 'degenerate', 'replay', 'no-final-newline'):
         res.outcome((tail, desc, width))
         return out
+    if desc in ('default', 'degenerate'):
+        # the same parsed object walked again (the .p8 writer formats twice: once for its sanity re-parse, once to write;
+        # `build` re-uses trees): a walk may not change the tree, the token list or the caller's option dict
+        args = {'indentwidth': width}
+        try:
+            again = b''.join(obj.to_lines(writer_cls=lua.LuaFormatterWriter, writer_args=args))
+            third = b''.join(obj.to_lines(writer_cls=lua.LuaFormatterWriter, writer_args=args))
+            echo = b''.join(obj.to_lines(writer_cls=lua.LuaASTEchoWriter))
+            fresh = lua.Lua.from_lines(chunks or [src], version=core.lua_version(src))
+            plain = b''.join(fresh.to_lines(writer_cls=lua.LuaASTEchoWriter))
+        except Exception as e:
+            res.violation('C09|rewalk|raise|%s|%s' % (type(e).__name__, tail),
+                          'formatting %r once works, walking the same parsed object again raises %s: %s' % (src, type(e).__name__, e), case)
+            return None
+        if again != out or third != out or args != {'indentwidth': width}:
+            res.violation('C09|rewalk|differs|%s' % tail,
+                          'luafmt of %r gives %r the first time and %r / %r when the same object is formatted again with the same '
+                          'option dict (now %r)' % (src, out, again, third, args), case)
+            return None
+        if echo != plain:
+            res.violation('C09|rewalk|tree-changed|%s' % tail,
+                          'after formatting %r the tree-driven echo writer gives %r; on a freshly parsed object it gives %r' % (src, echo, plain), case)
+            return None
     try:
         n_in = obj.get_token_count()
         n_out = lua.Lua.from_lines([out], version=8).get_token_count()
